@@ -181,6 +181,11 @@ def gen_boundary(rng, maxlen=70):
     pick = rng.random()
     if pick < 0.1:
         return b"----WebKitFormBoundaryMPRpF8CUUmlmqKqy"[:maxlen]
+    if pick < 0.2:
+        # boundaries made of (or ending in) the delimiter's own dashes
+        return rng.choice([b"-", b"--", b"---", b"0123456789-boundary--",
+                           b"==--==--", b"x--", b"--x", b"-x-",
+                           b"a--b--"])[:maxlen]
     n = rng.choice([1, 1, 2, 3, 3, 5, 8, 13, 27, 40, 69, 70])
     n = min(n, maxlen)
     text = "".join(rng.choice(BCHARS) for _ in range(n))
